@@ -91,13 +91,15 @@ def _optimize_operator_call_attr(  # pylint: disable=too-many-return-statements
             "is_not": (ast.IsNot, ast.NotEq),
         }.get(fn.attr)
         if isop is not None:
-            isoper, eqoper = isop
+            isoper, _ = isop
             arg1, arg2 = node.args
             assert len(node.args) == 2
-            oper = (
-                eqoper if any(_needs_eq_operator(arg) for arg in node.args) else isoper
-            )
-            return ast.Compare(arg1, [oper()], [arg2])
+            # `x is <literal>` is a SyntaxWarning in Python, but rewriting the identity
+            # test into an equality test would change its meaning (1.0 == 1, but
+            # 1.0 is not 1), so such calls are left as calls to the operator module.
+            if any(_needs_eq_operator(arg) for arg in node.args):
+                return node
+            return ast.Compare(arg1, [isoper()], [arg2])
 
         if fn.attr == "contains":
             arg1, arg2 = node.args
